@@ -79,6 +79,38 @@ PROPS = {
              'Chow-Liu-tree leaves) x kept subsets of the root scope (all for small scopes) x all assignments of the kept variables; '
              'circuits returned by learn_xpc (structured decomposable, CLT leaves) and LearnSPN with binary-clt leaves; the three '
              'argument guards; non-trivial = inner node and a proper kept subset; distinct = distinct (node table, kept set)',
+    ),    'C06': dict(
+        module='c06',
+        modules=['DeeprobModel.Props.C06', 'DeeprobModel.Props.C06Net', 'DeeprobModel.Props.Clt'],
+        theorems=['Deeprob.C06.mpe_keeps_observed', 'Deeprob.C06.mpe_in_domain', 'Deeprob.C06.mpe_fills_scope',
+                  'Deeprob.C06.mpe_outside_scope_unchanged', 'Deeprob.C06.mpe_completes', 'Deeprob.C06.topdown_one_leaf_per_var',
+                  'Deeprob.C06.mpe_positive', 'Deeprob.C06.mpeNet_keeps_observed', 'Deeprob.C06.mpeNetOrd_refines', 'Deeprob.C06.mpeNet_refines',
+                  'Deeprob.Clt.decode_keeps_observed', 'Deeprob.Clt.decode_fills_all', 'Deeprob.Clt.decode_attains_max',
+                  'Deeprob.Clt.mpe_attains_max', 'Deeprob.Clt.up_max_eq_maxOver'],
+        fragments=[],
+        rule='random valid DAG circuits over Bernoulli / Categorical leaves (exact comparison of completions with the model on '
+             'rows whose smallest arg-max margin exceeds 1e-4), circuits over every leaf family incl. CLT leaves (contract, '
+             'in-place semantics, positivity), and Chow-Liu trees of every shape with <= 4 (quick) / 5 (thorough) variables plus '
+             'random larger ones x all evidence patterns (brute-force maximality and model max-product value); '
+             'non-trivial = inner node / >= 2 tree variables; distinct = distinct node table / (tree, labelling)',
+    ),    'C07': dict(
+        module='c07',
+        modules=['DeeprobModel.Props.C07', 'DeeprobModel.Props.Clt', 'DeeprobModel.Oblig.C07'],
+        theorems=['Deeprob.C07.sample_keeps_observed', 'Deeprob.C07.sample_fills_scope', 'Deeprob.C07.sample_outside_scope_unchanged',
+                  'Deeprob.C07.sample_completes', 'Deeprob.C07.branchPmf_sums_to_one', 'Deeprob.C07.topDownPmf_exact',
+                  'Deeprob.C07.topDownPmf_eq_cond', 'Deeprob.C07.topDownPmf_sums_to_one', 'Deeprob.C07.topDownPmf_joint',
+                  'Deeprob.C07.cat_leaf_exact', 'Deeprob.Clt.samplePmf_exact', 'Deeprob.Clt.samplePmf_exact_value',
+                  'Deeprob.Clt.samplePmf_exact_pos', 'Deeprob.Clt.old_clt_sampler_wrong', 'Deeprob.Clt.old_clt_sampler_wrong_child',
+                  'Deeprob.Oblig.sum_sample_noise_is_standard_gumbel_r'],
+        fragments=['sumSampleNoise'],
+        rule='(a) distribution test at the API: (circuit or Chow-Liu tree, evidence) cases with <= 256 outcomes, N draws each, decided '
+             'by Hoeffding + union bound at family-wise level 1e-9 against the exact conditional pmf computed by the model in Q '
+             '(continuous variables: DKW band against the exact conditional cdf); (b) intercepted Bernoulli parameters of the CLT '
+             'sampler compared with the model local conditionals to 1e-5; non-trivial = every case (all have a sum node or >= 2 '
+             'tree variables); distinct = distinct (model, evidence)',
+        level_note='Trusted in addition: the Gumbel-max identity linking the extracted noise law (standard right-skewed Gumbel) to the '
+                   'categorical branch law; SciPy rvs implement the laws they name; the finite-sample decision has family-wise error '
+                   '< 1e-9 per run. Lean kernel, Mathlib, translator, harness, driver as for the other checks.',
     ),
 }
 
